@@ -333,6 +333,18 @@ def fam_late_inv(tier: str, rng: random.Random) -> Iterator[dict]:
                         h["con"].append({"role": "inv", "on": rng.choice(ons), "name": 0})
                         h["posthoc"].append({"k": k, "name": "f", "d": {"d": "invariant", "c": len(h["con"])}})
                     yield h
+        # the same class decorated twice in a row with invariants of different events (after its base was decorated)
+        for at_def in ([[]] * n, [["ALL"]] + [[]] * (n - 1)):
+            for k in range(2, n + 1):
+                for on1, on2 in (("CALL", "SETATTR"), ("SETATTR", "CALL"), ("ALL", "CALL"), ("CALL", "CALL")):
+                    for base_on in ons:
+                        h = make_hist(shape, [(0, 0, 0)] + [None] * (n - 1), [list(x) for x in at_def], kind="fn",
+                                      tag="late-inv-twice-" + shape)
+                        h["posthoc"] = []
+                        for kk, on in ((1, base_on), (k, on1), (k, on2)):
+                            h["con"].append({"role": "inv", "on": on, "name": 0})
+                            h["posthoc"].append({"k": kk, "name": "f", "d": {"d": "invariant", "c": len(h["con"])}})
+                        yield h
 
 
 def fam_shared_decos(tier: str, rng: random.Random) -> Iterator[dict]:
@@ -412,9 +424,10 @@ def fam_posthoc(tier: str, rng: random.Random) -> Iterator[dict]:
             for target in range(1, n + 1):
                 if mopts[target - 1] is None:
                     continue   # an inherited function object is the base's own function: decorating it IS decorating the base
-                for what, kind in (("require", "fn"), ("ensure", "fn"), ("require", "prop"), ("ensure", "static")):
+                for what, kind in (("require", "fn"), ("ensure", "fn"), ("require", "prop"), ("ensure", "static"),
+                                   ("require_partial", "fn"), ("ensure_partial", "static")):
                     h = make_hist(shape, mopts, [[]] * n, kind=kind, tag="posthoc-" + shape)
-                    role = "pre" if what == "require" else "post"
+                    role = "pre" if what.startswith("require") else "post"
                     h["con"].append({"role": role, "on": "CALL", "name": 0})
                     h["posthoc"] = [{"k": target, "name": "f", "d": {"d": what, "c": len(h["con"])}}]
                     if tier == "quick" and n == 3 and rng.random() < 0.5:
